@@ -70,3 +70,8 @@ func (x *c20SX) elemValue(v c20V, id int) (c20V, bool) {
 	}
 	return c20V{}, false
 }
+
+// c20EndsWithFirstElem: the buffer ends with the decimal first element of the id slice v (whatever precedes it).
+func c20EndsWithFirstElem(s c20Sym, v c20V) bool {
+	return len(s) > 0 && c20IsFirstElem(s[len(s)-1:], v)
+}
